@@ -364,12 +364,17 @@ func (e *Element) EncodeUncompressed() []byte {
 
 // using this outlining saves an allocation...
 func (e *Element) fillUncompressed(in *[elementLengthUncompressed]byte) []byte {
+	isIdentity := e.z.IsZero()
 	affine := e.affine()
-	out := append(in[:0], encodingPrefixUncompressed) //nolint:gocritic
+	prefix := subtle.ConstantTimeSelect(int(isIdentity), encodingPrefixIdentity, encodingPrefixUncompressed)
+	out := append(in[:0], byte(prefix)) //nolint:gocritic
 	out = append(out, affine.x.Bytes()...)
 	out = append(out, affine.y.Bytes()...)
 
-	return out
+	// As in Encode, the point at infinity is encoded as the single byte 0x00.
+	del := subtle.ConstantTimeSelect(int(isIdentity), elementLengthIdentity, elementLengthUncompressed)
+
+	return out[:del]
 }
 
 // XCoordinate returns the encoded x coordinate of the element, which is the same as Encode() without the header.
